@@ -349,7 +349,10 @@ func (i *Interpreter) Exec(ctx context.Context, bs match.Bindings, props core.St
 		return nil, err
 	}
 
-	x := v.Export()
+	x, err := export(v)
+	if err != nil {
+		return nil, err
+	}
 
 	var result match.Bindings
 	switch vv := x.(type) {
@@ -379,6 +382,18 @@ func canonicalize(x interface{}) (interface{}, error) {
 		return nil, err
 	}
 	return y, nil
+}
+
+// export exports the value that the script returned.  Exporting an
+// object runs its getters, which are code of the script and can
+// throw; that must not crash the host.
+func export(v goja.Value) (x interface{}, err error) {
+	defer func() {
+		if r := recover(); r != nil {
+			err = fmt.Errorf("%s", r)
+		}
+	}()
+	return v.Export(), nil
 }
 
 func RunProgram(o *goja.Runtime, p *goja.Program) (v goja.Value, err error) {
